@@ -47,7 +47,7 @@ func Analyse(r *Run) *Analysis {
 			a.idKey[e.Pkt.ID] = k
 		}
 	}
-	for _, s := range r.Subm {
+	for _, s := range r.SubmSnapshot() {
 		if s.Step.Key() != "" {
 			a.Order = append(a.Order, s)
 		}
